@@ -127,10 +127,12 @@ CleanGap(E, s, dead, i, A0) ==
 (* and only when the list has a live countable unit at all                                                *)
 CleanText(E, s, dead) == IF GapEnd(E, s, dead, 1) > Len(s) THEN {} ELSE CleanGap(E, s, dead, 1, {})
 
-(* TransactionMut::cleanup_fmt for one container: ins / del = units the transaction inserted / deleted.  *)
-(* A surviving inserted mark or a deleted mark asks for the whole-type pass, otherwise every deleted     *)
-(* countable unit gets the contextless pass.  (The library runs the passes one after the other on the   *)
-(* mutated list; marks deleted by one pass are tombstones for the next.)                                 *)
+(* TransactionMut::cleanup_fmt for one container: ins / del = units the transaction inserted / deleted (before *)
+(* the clean-up).  A surviving inserted mark asks for the whole-type pass only.  Otherwise the delete set is    *)
+(* walked in id order (client, clock): every deleted countable unit met BEFORE the first deleted mark of the    *)
+(* container gets the contextless pass, a deleted mark asks for the whole-type pass (which runs last).  The    *)
+(* passes run one after the other on the mutated list: marks deleted by one pass are tombstones for the next.  *)
+IdBefore(x, y) == x[1] < y[1] \/ (x[1] = y[1] /\ x[2] < y[2])
 RECURSIVE CleanEach(_, _, _, _)
 CleanEach(E, s, dead, todo) ==
   IF todo = {} THEN {}
@@ -138,9 +140,12 @@ CleanEach(E, s, dead, todo) ==
            d == CleanContextless(E, s, dead, j)
        IN d \cup CleanEach(E, s, dead \cup d, todo \ {j})
 CleanupFmt(E, s, dead, ins, del) ==
-  LET whole == \/ \E i \in 1..Len(s) : s[i] \in ins /\ LiveMark(E, dead, s[i])
-               \/ \E i \in 1..Len(s) : s[i] \in del /\ IsMark(E, s[i])
-  IN IF ~Marked(E, s) THEN {}
-     ELSE IF whole THEN CleanText(E, s, dead)
-     ELSE CleanEach(E, s, dead, {i \in 1..Len(s) : s[i] \in del /\ ~IsMark(E, s[i])})
+  LET insTrig  == \E i \in 1..Len(s) : s[i] \in ins /\ LiveMark(E, dead, s[i])
+      delMarks == {x \in Range(s) \cap del : IsMark(E, x)}
+      ctx      == IF insTrig THEN {}
+                  ELSE {i \in 1..Len(s) : /\ s[i] \in del /\ ~IsMark(E, s[i])
+                                          /\ \A m \in delMarks : IdBefore(s[i], m)}
+      pass1    == CleanEach(E, s, dead, ctx)
+      pass2    == IF insTrig \/ delMarks # {} THEN CleanText(E, s, dead \cup pass1) ELSE {}
+  IN IF ~Marked(E, s) THEN {} ELSE pass1 \cup pass2
 =============================================================================
